@@ -1391,6 +1391,10 @@ impl<'a> Interp<'a> {
         let m = it.next().unwrap_or("");
         let orig_operand = t.trim().split_whitespace().nth(1).unwrap_or("").to_string();
         let imm = |s: &str| -> Option<i32> { s.strip_prefix('#').and_then(|x| x.parse::<i32>().ok()) };
+        if up.starts_with(';') {
+            // an assembler comment
+            return Ok(());
+        }
         match m {
             "NOP" => {}
             "LDX" => {
